@@ -653,7 +653,7 @@ def cross_probe(P: C.Part, rng: np.random.Generator) -> None:
 
 def gen_result_spec(rng: np.random.Generator, i: int, thorough: bool) -> Dict[str, Any]:
     sizes = [2000, 10000] + ([50000] if thorough else [])
-    return {"rec_seed": int(rng.integers(0, 2 ** 62)), "N": int(sizes[i % len(sizes)]), "fs": float(rng.choice([1.0, 10.0, 1000.0])),
+    return {"rec_seed": int(rng.integers(0, 2 ** 62)), "N": int(sizes[i % len(sizes)]), "fs": float(rng.choice([1.0, 10.0, 1000.0, 1e-3, 1e-6, 3.7e4])),
             "noise": ["white", "red", "white"][i % 3], "amp": float(rng.choice([3.7, 0.02, 150.0])), "cfg": dict(RESULT_CFGS[(i // 2) % len(RESULT_CFGS)])}
 
 
